@@ -42,3 +42,10 @@ func init() {
 	reg("math/bits.Len8", lenN(8))
 	reg("math/bits.Len", lenN(64))
 }
+
+func init() {
+	// process statistics: not part of any property; zero usage, no error
+	reg("syscall.Getrusage", func(fr *frame, args []Value) Value { return Iface{} })
+	reg("os.Getpid", func(fr *frame, args []Value) Value { return tInt(4242) })
+	reg("runtime.ReadMemStats", func(fr *frame, args []Value) Value { return nil })
+}
